@@ -130,22 +130,22 @@ def handleC10 : List String → Option String
   | ["c10.run", o, rel, cls, d09, d10, gn, ro, ex, zone, ops] => do
     let cfg : Cfg := { origin := ← parseName o, relativize := ← parseBool rel, rdclass := ← cls.toNat?,
                        d09 := ← parseBool d09, d10 := ← parseBool d10, gn := ← parseBool gn }
-    let ro ← parseBool ro
+    let mode ← ro.toNat?     -- 0 writer, 1 reader, 2 writer(replacement=True)
     let exc ← if ex = "c" then some false else if ex = "x" then some true else none
     let z := lowerKeys (← parseZone zone)
     let ops ← parseOps ops
-    let s0 := if ro then beginRead z else beginWrite z
+    let s0 := if mode = 1 then beginRead z else if mode = 2 then beginReplace z else beginWrite z
     let (s1, rs) := run cfg s0 ops
     let s2 := exitTxn s1 exc
     some (" ".intercalate (rs.map showRes) ++ " | " ++ showZone s2.zone)
   | ["c10.spec", o, rel, cls, _d09, _d10, _gn, ro, ex, zone, ops] => do
     let cfg : Cfg := { origin := ← parseName o, relativize := ← parseBool rel, rdclass := ← cls.toNat?,
                        d09 := false, d10 := false }
-    let ro ← parseBool ro
+    let mode ← ro.toNat?
     let exc ← if ex = "c" then some false else if ex = "x" then some true else none
     let z := flatten (lowerKeys (← parseZone zone))
     let ops ← parseOps ops
-    let t0 := if ro then sBeginRead z else sBeginWrite z
+    let t0 := if mode = 1 then sBeginRead z else if mode = 2 then sBeginReplace z else sBeginWrite z
     let (t1, rs) := sRun cfg t0 (ops.map toSOp)
     let t2 := sExit t1 exc
     some (" ".intercalate (rs.map showRes) ++ " | " ++ showSZone t2.zone)
